@@ -1242,6 +1242,33 @@ static char *forge_token(json_t *td, json_t *info)
 		return (char *)b;
 	}
 	if (!strcmp(src, "lit")) return strdup(jstr(td, "text", ""));
+	if (!strcmp(src, "mut")) {
+		/* byte-level mutations of a token kept in a slot: [[kind, pos_ppm, byte], ...] */
+		long sl = jint(td, "slot", 0);
+		json_t *muts = json_object_get(td, "muts"), *m; size_t i;
+		char *t; size_t n;
+		if (sl < 0 || sl >= MAXSLOT || !slots[sl]) return strdup("");
+		size_t cap;
+		n = strlen(slots[sl]);
+		cap = 2 * n + 140000;
+		t = malloc(cap + 16);
+		memcpy(t, slots[sl], n + 1);
+		json_array_foreach(muts, i, m) {
+			const char *k = json_string_value(json_array_get(m, 0));
+			size_t pos = n ? (size_t)((double)json_integer_value(json_array_get(m, 1)) / 1000000.0 * n) : 0;
+			int b = (int)json_integer_value(json_array_get(m, 2));
+			if (pos > n) pos = n;
+			if (!strcmp(k, "set") && pos < n) t[pos] = (char)b;
+			else if (!strcmp(k, "del") && pos < n) { memmove(t + pos, t + pos + 1, n - pos); n--; }
+			else if (!strcmp(k, "ins") && n + 1 < cap) { memmove(t + pos + 1, t + pos, n - pos + 1); t[pos] = (char)b; n++; }
+			else if (!strcmp(k, "trunc")) { n = pos; t[n] = 0; }
+			else if (!strcmp(k, "pad")) { size_t add = (size_t)b * 256; if (add > 66000) add = 66000; if (n + add < cap) { memset(t + n, 'A' + (int)(pos % 26), add); n += add; t[n] = 0; } }
+			else if (!strcmp(k, "dup") && 2 * n < cap) { memcpy(t + n, t, n); n *= 2; t[n] = 0; }
+			if (n == 0) t[0] = 0;
+		}
+		t[n] = 0;
+		return t;
+	}
 	shape = jstr(td, "shape", "3seg");
 	if (!strcmp(shape, "null")) return NULL;
 	if (!strcmp(shape, "empty")) return strdup("");
